@@ -4,6 +4,7 @@ import (
 	"encoding/json"
 	"fmt"
 	"strings"
+	"sync"
 
 	"github.com/pkg/errors"
 	"github.com/spikeekips/mitum/base"
@@ -70,6 +71,7 @@ func PolicyTag(p base.NetworkPolicy) string {
 type Cast struct {
 	Tag       string
 	NetworkID base.NetworkID
+	mu        sync.Mutex // cases run in parallel on one world
 	actors    map[string]*Actor
 	ops       map[string]base.Operation
 }
@@ -79,6 +81,8 @@ func NewCast(tag string, networkID base.NetworkID) *Cast {
 }
 
 func (c *Cast) Actor(name string) *Actor {
+	c.mu.Lock()
+	defer c.mu.Unlock()
 	a, ok := c.actors[name]
 	if !ok {
 		a = NewActor(c.Tag, name)
@@ -130,9 +134,26 @@ type nodeSignSetter interface {
 
 // Op builds (once) the real, really signed operation of a model operation.
 func (c *Cast) Op(t OpT) (base.Operation, error) {
-	if op, ok := c.ops[t.ID]; ok {
+	c.mu.Lock()
+	op, ok := c.ops[t.ID]
+	c.mu.Unlock()
+	if ok {
 		return op, nil
 	}
+	built, err := c.build(t)
+	if err != nil {
+		return nil, err
+	}
+	c.mu.Lock()
+	defer c.mu.Unlock()
+	if op, ok := c.ops[t.ID]; ok { // built twice at the same moment: keep the first
+		return op, nil
+	}
+	c.ops[t.ID] = built
+	return built, nil
+}
+
+func (c *Cast) build(t OpT) (base.Operation, error) {
 	token := base.Token([]byte("verif-" + t.ID))
 	var fact base.Fact
 	var setter nodeSignSetter
@@ -178,9 +199,7 @@ func (c *Cast) Op(t OpT) (base.Operation, error) {
 		if err := setter.SetNodeSigns(signs); err != nil {
 			return nil, err
 		}
-		built := derefOp(setter)
-		c.ops[t.ID] = built
-		return built, nil
+		return derefOp(setter), nil
 	}
 	// duplicated node signs cannot be made through the API: decode them, as the network would
 	first := make([]base.NodeSign, 0, len(signs))
@@ -194,12 +213,7 @@ func (c *Cast) Op(t OpT) (base.Operation, error) {
 	if err := setter.SetNodeSigns(first); err != nil {
 		return nil, err
 	}
-	built, err := c.reencode(derefOp(setter), fact, signs)
-	if err != nil {
-		return nil, err
-	}
-	c.ops[t.ID] = built
-	return built, nil
+	return c.reencode(derefOp(setter), fact, signs)
 }
 
 func derefOp(s nodeSignSetter) base.Operation {
